@@ -160,6 +160,7 @@ class World:
         kw = {self.ren.get(fn, fn): pycopy.deepcopy(v) for fn, v in m.items()}
         self.outer = self.add(oname, self.Outer(_buffer=self.B, **kw), m)
         self.copies = []
+        self.extra = None
         # classes holding references: a second holder in the same buffer whose references are bound from the start
         # (an object can be referenced by several holders; one of them letting go does not free it)
         self.sibling = None
@@ -233,6 +234,13 @@ class World:
             for key in sorted(self.helpers):
                 if any(fs == ("ref", key[0]) for _, fs in OUTERS[self.oname]):
                     ev.append(("move-helper", key))
+        # a copy of a PART (nested by value, or bound to a reference field) is an object of its own: it can be moved
+        if self.extra is None:
+            for fn, fs in OUTERS[self.oname]:
+                if fs[0] in ("hyb", "ref") and self.objs[self.outer]["m"][fn] is not None:
+                    ev.append(("copy-part", fn))
+        else:
+            ev.append(("move-extra",))
         return ev
 
     def apply(self, ev):
@@ -370,6 +378,26 @@ class World:
                 return "refused"  # always allowed (an object that was referenced once may stay pinned)
             if self.referenced(sid):
                 raise AssertionError("move of an object that a holder still references accepted")
+        elif kind == "copy-part":
+            o = self.objs[self.outer]
+            fn = ev[1]
+            fs = field_specs(o["cname"])[fn]
+            part = getattr(o["h"], self.pyname(self.outer, fn))
+            c = part.copy(_buffer=self.B)
+            mv = o["m"][fn]
+            m = pycopy.deepcopy(mv if fs[0] == "hyb" else self.objs[mv[1]]["m"] if mv[0] == "id" else self.objs[mv[1]]["m"][mv[2]] if mv[0] == "nested" else mv[1])
+            self.extra = self.add(fs[1], c, m)
+        elif kind == "move-extra":
+            x = self.objs[self.extra]
+            dest = self.F if x["h"]._buffer is self.B else self.B
+            try:
+                x["h"].move(_buffer=dest)
+            except MemoryError:
+                if holds_refs(x["cname"]):
+                    return "refused"
+                raise AssertionError("move of a COPY of a part refused (the copy is nested in nothing and referenced by nothing)")
+            if holds_refs(x["cname"]):
+                raise AssertionError("move of an object that contains references accepted")
         elif kind == "mutate-src":
             s = self.objs[self.helpers[ev[1]]]
             first = INNERS[ev[1][0]][0][0]
@@ -572,7 +600,7 @@ def run_shard(shard, tier, seed):
                 res.transitions += 1
                 name = ev[0] + ("-refused" if r == "refused" else "")
                 res.events[name if name in ("move-refused",) else ev[0]] += 1
-                if r == "refused" and ev[0] in ("move", "move-nested", "move-helper"):
+                if r == "refused" and ev[0] in ("move", "move-nested", "move-helper", "move-extra"):
                     res.events["move-refused"] += 1
                 if probs:
                     report(probs, hist, hidx, ev, ei, r == "refused")
